@@ -34,8 +34,8 @@ RULE = (
     "choice (named; unnamed)} with N entries and nesting depth <= 3, rendered compliantly under `mainmenu` (entries at 4 "
     "blanks) and as a sourced Kconfig.body (entries at 0 blanks); every Kconfig* file of a program is a target. "
     "quick: N=1 in all 6 flavour rotations; N=2 (one rotation/position per forest); all container chains of depth 3 around an "
-    "option and of depth 2 around a choice; each spelling of `source` after a help text; 2 dedicated programs ('#' in a quoted "
-    "condition, unnamed choice in an `if`). thorough: N=1 in all rotations and both positions, N=2 in all rotations (positions alternating), all chains "
+    "option and of depth 2 around a choice; each spelling of `source` after a help text; 3 dedicated programs ('#' in a quoted "
+    "condition; unnamed choice / menu in an `if` after a single option). thorough: N=1 in all rotations and both positions, N=2 in all rotations (positions alternating), all chains "
     "of depth 2 and 3 in both positions, all forests with N=3, and the single-rooted N=4 forests of depth >= 2 (one in eight, "
     "chosen by a stable hash). "
     "MANGLINGS per target: ALL single sites {indent +1..+4, -1..-4, 0, one tab per 4-blank unit, a leading tab, 1 and 2 "
@@ -409,7 +409,11 @@ def programs(tier: str) -> List[Dict[str, Any]]:
     for rot in range(len(SRC_KW)):
         emit((("cfg", "help"), ("src",)), rot, "main", 2 if thorough else 1, "extra")
     # constructs the documented rules do not forbid, kept in dedicated programs
-    for f in ((("cfg", "strhash"),), (("cfg", "plain"), ("if", (("uchoice", (("cfg", "plain"), ("cfg", "plain"))),)))):
+    for f in (
+        (("cfg", "strhash"),),
+        (("cfg", "plain"), ("if", (("uchoice", (("cfg", "plain"), ("cfg", "plain"))),))),
+        (("cfg", "plain"), ("if", (("menu", (("cfg", "plain"),)),))),
+    ):
         for pos in ("main", "sub"):
             emit(f, 0, pos, 2 if thorough else 1, "extra")
     if thorough:
@@ -816,7 +820,7 @@ class Ctx:
 
     # ---- one pass of the checker
     def validate_real(self, text: str, replace: bool = True) -> tuple:
-        """runs kconfcheck.core.validate_file on a file holding `text` in its own fresh directory.
+        """runs kconfcheck.core.validate_file on a file holding `text`, alone in its own directory.
         -> ("ret", ok: bool, out_text, said_ok: bool, leftover files, first complaint class)  |  ("exc", type, site)"""
         from kconfcheck.core import validate_file
 
@@ -829,6 +833,7 @@ class Ctx:
         # the first Kconfig() of a process installs kconfiglib's own logger (report.py: CachingLog); take it back
         _cap.install()
         _cap.msgs.clear()
+        dirty = True
         try:
             try:
                 ok = validate_file(path, False, replace)
@@ -839,6 +844,7 @@ class Ctx:
                 return ("exc", type(e).__name__, exc_site(e), first)
             out = _get(path)
             left = tuple(sorted(x for x in os.listdir(d) if x != self.target))
+            dirty = bool(left)
             said_ok = any(k == "print" and m == f"{path}: OK" for k, m in _cap.msgs)
             errs = [m for k, m in _cap.msgs if k == "err"]
             self.last_err_line = None
@@ -848,11 +854,7 @@ class Ctx:
             return ("ret", ok, out, said_ok, left, msg_class(errs[0], path) if errs else "")
         finally:
             _cap.msgs.clear()
-            try:
-                extra = [x for x in os.listdir(d) if x != self.target]
-            except OSError:
-                extra = ["?"]
-            if extra:  # leftovers of this pass must not be seen by the next one
+            if dirty:  # leftovers of this pass must not be seen by the next one
                 shutil.rmtree(d, ignore_errors=True)
                 os.mkdir(d)
 
